@@ -109,7 +109,14 @@ func byzSource(c *core.Ctx, e *scen.Engine, kinds ...int) *scen.Sent {
 func runC01(c *core.Ctx, crashes bool) {
 	ch := c.Ch
 	nChains := ch.Range(2, 4)
-	w, e := buildTraffic(c, nChains, world.DefaultClientParams())
+	params := world.DefaultClientParams()
+	// clients with a confirmation delay: proofs are usable only some seconds after their height
+	// was recorded (honest deliveries are simply retried later)
+	params.TimeDelay = []uint64{0, 0, 1_000_000_000, 3_000_000_000}[ch.Int(4)]
+	w, e := buildTraffic(c, nChains, params)
+	if params.TimeDelay > 0 {
+		w.Stats.Inc("clients-with-confirmation-delay")
+	}
 	e.DumpStores = TokenStores
 	// relay chains with restrictive or empty rule sets: the refusal branch of the relay hop
 	for _, n := range w.Nodes {
